@@ -721,6 +721,38 @@ func consumedOnlyBehind(fn *ssa.Function, v ssa.Value, cut []Edge) (ok bool, n i
 	return ok, n
 }
 
+// leafAt is one of the values a merged value can take, with the instruction at
+// which that alternative is selected (the terminator of the block it arrives
+// from; the use itself for an unmerged value).
+type leafAt struct {
+	V  ssa.Value
+	At ssa.Instruction
+}
+
+// valueLeaves unfolds v through phis.
+func valueLeaves(v ssa.Value, at ssa.Instruction) []leafAt {
+	var out []leafAt
+	seen := map[ssa.Value]bool{}
+	var rec func(v ssa.Value, at ssa.Instruction, d int)
+	rec = func(v ssa.Value, at ssa.Instruction, d int) {
+		ph, ok := v.(*ssa.Phi)
+		if !ok || d > 6 || seen[v] {
+			out = append(out, leafAt{v, at})
+			return
+		}
+		seen[v] = true
+		for i, e := range ph.Edges {
+			pred := ph.Block().Preds[i]
+			if len(pred.Instrs) == 0 {
+				continue
+			}
+			rec(e, pred.Instrs[len(pred.Instrs)-1], d+1)
+		}
+	}
+	rec(v, at, 0)
+	return out
+}
+
 // boolIs: v is the boolean cond, either the value itself or a flag that receives
 // the constant true exactly over cond's true edge and false over its false edge
 // (if cond { v = true } else { v = false }).
@@ -930,6 +962,28 @@ func psSearch(start *ssa.BasicBlock, cut []Edge, blocked func(*ssa.BasicBlock) b
 // psSearchState is psSearch with a goal that may also inspect the outcomes known
 // on the path (conditions taken, constants and nil-ness that phis received).
 func psSearchState(start *ssa.BasicBlock, cut []Edge, blocked func(*ssa.BasicBlock) bool, goal func(*ssa.BasicBlock, map[ssa.Value]bool) bool) []*ssa.BasicBlock {
+	return psSearchInit(start, nil, cut, blocked, goal)
+}
+
+// canReenter: can control, having executed block b, come back to b? The first step out of
+// b is taken with the knowledge that step establishes (constants that flag phis of the
+// successor receive over that edge), so a loop that is left through a flag set in b is
+// recognised as left.
+func canReenter(b *ssa.BasicBlock) bool {
+	for _, s := range b.Succs {
+		init := phiOutcomes(b, s, map[ssa.Value]bool{})
+		if s == b {
+			return true
+		}
+		if psSearchInit(s, init, nil, nil, func(x *ssa.BasicBlock, _ map[ssa.Value]bool) bool { return x == b }) != nil {
+			return true
+		}
+	}
+	return false
+}
+
+// psSearchInit is psSearchState started with outcomes already known on entry to start.
+func psSearchInit(start *ssa.BasicBlock, init map[ssa.Value]bool, cut []Edge, blocked func(*ssa.BasicBlock) bool, goal func(*ssa.BasicBlock, map[ssa.Value]bool) bool) []*ssa.BasicBlock {
 	fn := start.Parent()
 	multi := multiConds(fn)
 	isCut := map[Edge]bool{}
@@ -957,8 +1011,11 @@ func psSearchState(start *ssa.BasicBlock, cut []Edge, blocked func(*ssa.BasicBlo
 		return strings.Join(parts, ",")
 	}
 	seen := map[state]bool{}
-	q := []*node{{b: start, known: map[ssa.Value]bool{}}}
-	seen[state{start, ""}] = true
+	if init == nil {
+		init = map[ssa.Value]bool{}
+	}
+	q := []*node{{b: start, known: init}}
+	seen[state{start, sigOf(init)}] = true
 	for len(q) > 0 {
 		n := q[0]
 		q = q[1:]
